@@ -9,7 +9,7 @@ from ..netcases import DIRECT, INDIRECT, c11_params, run_c11_case, run_connect_b
 
 ID = 'C11'
 LEVEL = 'fault_enumeration'
-QUICK_SCALE = 3      # the quick tier was enlarged by this factor after MIN_OBS['quick'] was measured
+QUICK_SCALE = 7.5      # the quick tier was enlarged by this factor after MIN_OBS['quick'] was measured
 RULE = ("One real logged-in client asks for a peer connection to a scripted peer. The scenario fixes whether each path "
         "can work: direct in {fast, slow(<10 s), refused, hang(->10 s timeout), reset while sending the init message, "
         "server has no address}, indirect in {peer pierces fast, pierces slowly(<60 s), cannot-connect relayed, silence"
@@ -60,10 +60,10 @@ def cases(tier: str, seed: int) -> list[dict]:
                         'cell': {'mode': 'race', 'direct': 'fast', 'indirect': 'pierce-fast', 'cancel': None, 'typ': typ,
                                  'same_instant': True, 'rendezvous': 'pierce-waits-for-direct-connect', 'd_yields': 0,
                                  'i_yields': j, 'ports': 'clear', 'prefer_obf': False}})
-    n_rand = 1600 if tier == 'quick' else 150000
+    n_rand = 4000 if tier == 'quick' else 150000
     for _ in range(n_rand):
         out.append({'kind': 'request', 'seed': seed, 'n': len(out), 'cell': None})
-    n_cb = 320 if tier == 'quick' else 25000
+    n_cb = 800 if tier == 'quick' else 25000
     for _ in range(n_cb):
         out.append({'kind': 'connect-back', 'seed': seed, 'n': len(out)})
     return out
